@@ -24,7 +24,7 @@ func TestVerifC04Daedns(t *testing.T) {
 	log := logrus.New()
 	log.SetOutput(io.Discard)
 	r := vk.NewRand(0xC04D)
-	gen := &vk.DGen{R: r, Internal: true}
+	gen := &vk.DGen{R: r, Internal: true, RichInternal: true}
 	nprog := vk.Scale(400, 10000)
 	for i := 0; i < nprog && m.Violations() < 5; i++ {
 		p := gen.Gen()
@@ -106,10 +106,131 @@ func TestVerifC04Daedns(t *testing.T) {
 				break
 			}
 		}
+		c04InternalSelectors(m, log, p, router)
 		if m.WantSample() {
 			m.Sample(map[string]any{"text": p.Text()})
 		}
 	}
-	m.Require("programs", "decisions_multi_rule_programs")
+	m.Require("programs", "decisions_multi_rule_programs", "internal_selector_decisions", "internal_selector_neighbour_rules_same_target")
 	m.Done(t)
+}
+
+// c04InternalSelectors: the internal selectors sub()/node()/subnode() go through the same
+// normalisation (merge+sort, dedup) before the router compiles them. Metamorphic oracle, free of
+// any reading of the selector syntax of my own: every written internal rule is compiled ALONE by
+// the production router (nothing to merge with), the written order gives the first-match
+// reference per selector kind, and the router built from the whole section must agree on every
+// probed subscription / node.
+func c04InternalSelectors(m *vk.Monitor, log *logrus.Logger, p *vk.DProg, full *Router) {
+	type one struct {
+		fn  string
+		out string
+		r   *Router
+	}
+	var singles []one
+	for _, rl := range p.Req {
+		if !rl.Internal() {
+			continue
+		}
+		q := &vk.DProg{Upstreams: p.Upstreams, Req: []vk.DRule{rl}, ReqFallback: "asis", RespFallback: "accept"}
+		text := "global {}\nrouting {\n    fallback: direct\n}\n" + q.Text()
+		sections, err := config_parser.Parse(text)
+		if err != nil {
+			m.Violation("daedns-build-error/single-rule", "single internal rule rejected: "+err.Error(), map[string]any{"text": text})
+			return
+		}
+		conf, err := config.New(sections)
+		if err != nil {
+			m.Violation("daedns-build-error/single-rule", "single internal rule rejected: "+err.Error(), map[string]any{"text": text})
+			return
+		}
+		r1, err := NewWithOption(log, &conf.Global, &conf.Dns, nil)
+		if err != nil || r1 == nil {
+			m.Violation("daedns-build-error/single-rule", fmt.Sprintf("single internal rule rejected: %v", err), map[string]any{"text": text})
+			return
+		}
+		singles = append(singles, one{fn: rl.Conds[0].Func, out: rl.Out, r: r1})
+	}
+	if len(singles) == 0 {
+		return
+	}
+	m.Count("programs_with_internal_rules", 1)
+	for i := 1; i < len(p.Req); i++ {
+		a, b := p.Req[i-1], p.Req[i]
+		if a.Internal() && b.Internal() && a.Out == b.Out && len(a.Conds) == 1 && len(b.Conds) == 1 && a.Conds[0].Func == b.Conds[0].Func && a.Conds[0].Not == b.Conds[0].Not {
+			m.Count("internal_selector_neighbour_rules_same_target", 1)
+		}
+	}
+	firstSub := func(raw string) (string, bool) {
+		for _, s := range singles {
+			if s.fn == "sub" {
+				if _, ok := s.r.MatchSubscriptionUpstream(raw); ok {
+					return s.out, true
+				}
+			}
+		}
+		return "", false
+	}
+	firstNode := func(meta NodeMeta) (string, bool) {
+		if meta.SubscriptionTag != "" {
+			for _, s := range singles {
+				if s.fn == "subnode" {
+					if _, ok := s.r.MatchNodeUpstream(meta); ok {
+						return s.out, true
+					}
+				}
+			}
+		}
+		for _, s := range singles {
+			if s.fn == "node" {
+				if _, ok := s.r.MatchNodeUpstream(NodeMeta{Name: meta.Name, Link: meta.Link}); ok {
+					return s.out, true
+				}
+			}
+		}
+		return "", false
+	}
+	bad := func(kind, in, got, want string) {
+		m.Violation("meaning-changed/daedns-"+kind, fmt.Sprintf("daedns %s selector decides %s as %s; every rule compiled alone, in written order, says %s", kind, in, got, want),
+			map[string]any{"text": p.Text(), "input": in})
+	}
+	show := func(u string, ok bool) string {
+		if !ok {
+			return "(no rule)"
+		}
+		return u
+	}
+	for _, tag := range []string{"", "s1", "s2", "s3", "s4"} {
+		for _, link := range []string{"https://alpha.test/sub", "https://a.test/beta", "http://other.test/x"} {
+			raw := link
+			if tag != "" {
+				raw = tag + ":" + link
+			}
+			m.Eval(1)
+			m.Count("internal_selector_decisions", 1)
+			gu, gok := full.MatchSubscriptionUpstream(raw)
+			wu, wok := firstSub(raw)
+			m.Distinct(fmt.Sprintf("sub|%v|%v", wok, tag != ""))
+			if gok != wok || gu != wu {
+				bad("sub", raw, show(gu, gok), show(wu, wok))
+				return
+			}
+		}
+	}
+	for _, tag := range []string{"", "s1", "s2", "s3", "s4"} {
+		for _, name := range []string{"hk-1", "hk-2", "jp-1", "us-2", "x"} {
+			for _, link := range []string{"ss://alpha", "ss://x-beta", "trojan://gamma"} {
+				meta := NodeMeta{SubscriptionTag: tag, Name: name, Link: link}
+				m.Eval(1)
+				m.Count("internal_selector_decisions", 1)
+				gu, gok := full.MatchNodeUpstream(meta)
+				wu, wok := firstNode(meta)
+				m.Distinct(fmt.Sprintf("node|%v|%v", wok, tag != ""))
+				if gok != wok || gu != wu {
+					bad("node", fmt.Sprintf("%+v", meta), show(gu, gok), show(wu, wok))
+					return
+				}
+			}
+		}
+	}
 }
